@@ -144,9 +144,31 @@ func runC08(c *Ctx, r *Rec) {
 			if _, mname, mc, ok := methodCall(a1); ok && mname == "MapIndex" && len(mc.Args) == 1 && mir.side(mc.Fun) == 1 && mir.side(a0) != 1 {
 				continue
 			}
+			// a part of an operand that is kept in a local of the loop first (firstMethod :=
+			// first.Method(index); … firstMethod.Call(none)[0]): the local stands for its definition
+			{
+				subst := map[types.Object]ast.Expr{}
+				for _, a := range []ast.Expr{a0, a1} {
+					ast.Inspect(a, func(y ast.Node) bool {
+						if id, ok := y.(*ast.Ident); ok && ast.Expr(id) != ast.Unparen(a) {
+							if init := initOfIn(info, loops[0], id); init != nil && (mentionsObj(info, init, params[0]) || mentionsObj(info, init, params[1])) {
+								subst[info.Uses[id]] = init
+							}
+						}
+						return true
+					})
+				}
+				if len(subst) > 0 {
+					in := &inliner{info: info, subst: subst, pos: call.Pos(), end: call.End() - 1, ok: true}
+					b0, b1 := in.expr(a0), in.expr(a1)
+					if in.ok && mir.mirrorEq(b0, b1) && mir.side(b0) == 0 {
+						continue
+					}
+				}
+			}
 			bad = fmt.Sprintf("the recursive comparison %s(%s, %s) at %s does not compare a part of first with the corresponding part of second", exprStr(call.Fun), exprStr(a0), exprStr(a1), c.pos(call.Pos()))
 		}
-		r.check(bad == "", "D2-mirror-operands", construct, c.pos(fd.Pos()), fmt.Sprintf("%d recursive comparison(s) on corresponding parts", len(calls)), bad)
+		r.verdict("D2-mirror-operands", construct, c.pos(fd.Pos()), fmt.Sprintf("%d recursive comparison(s) on corresponding parts", len(calls)), bad)
 		// a failed element comparison returns false; the loop's end returns true
 		envB := &symEnv{info: info}
 		envB.resolve = func(e ast.Expr) (Val, bool) {
